@@ -52,6 +52,8 @@ func (raceEngine) Decode(raw json.RawMessage) (any, error) {
 const raceStaticMacs = 4
 
 type raceReq struct {
+	rxIf    int  // receive interface index given to the server
+	pinned  bool // the reply must be pinned to rxIf (link-local peer / broadcast)
 	v6      bool
 	xid     uint32
 	mac     []byte // chaddr (v4) / DUID-LL address (v6)
@@ -118,10 +120,20 @@ func (raceEngine) Run(ctx *fw.Ctx, cs any) {
 					msg = pkt.Relay6(12, 0, net.ParseIP("2001:db8:1::1"), net.ParseIP("fe80::1"), []pkt.Opt6{pkt.O6(pkt.OptInterfaceID, []byte(fmt.Sprintf("p%d", j)))}, msg)
 				}
 				cr = ChainReq{V6: true, Hex: hex.EncodeToString(msg), RxIf: fakeIf, Peer: "2001:db8:ffff::99", Port: 546, Async: true}
+				if rng.Intn(2) == 0 { // link-local source: the reply must be pinned to the interface THIS datagram arrived on
+					r.rxIf, r.pinned = fakeIf-1-rng.Intn(2), true
+					cr.RxIf, cr.Peer = r.rxIf, fmt.Sprintf("fe80::%x", 1+rng.Intn(4000))
+				}
 			} else {
 				p := pkt.Request4(r.xid, r.mac, byte(1+2*rng.Intn(2)), pkt.O4(55, 1, 3, 6, 51), pkt.O4(12, []byte(fmt.Sprintf("h-%x", r.mac))...), pkt.O4(61, append([]byte{1}, r.mac...)...))
-				p.Gi = pkt.IP4("10.9.9.9")
-				cr = ChainReq{Hex: hex.EncodeToString(p.Bytes()), RxIf: fakeIf, Peer: "10.9.9.9", Port: 67, Async: true}
+				if rng.Intn(3) == 0 { // not relayed, broadcast flag: broadcast reply pinned to the arrival interface
+					p.Flags = 0x8000
+					r.rxIf, r.pinned = fakeIf-1-rng.Intn(2), true
+					cr = ChainReq{Hex: hex.EncodeToString(p.Bytes()), RxIf: r.rxIf, Peer: "0.0.0.0", Port: 68, Async: true}
+				} else {
+					p.Gi = pkt.IP4("10.9.9.9")
+					cr = ChainReq{Hex: hex.EncodeToString(p.Bytes()), RxIf: fakeIf, Peer: "10.9.9.9", Port: 67, Async: true}
+				}
 			}
 			if rewrite && j == 0 {
 				cr.Write = &FileWrite{Name: "l4.txt", Content: versionFile(false, raceStaticMacs, ver, "")}
@@ -198,7 +210,7 @@ func (raceEngine) Run(ctx *fw.Ctx, cs any) {
 		for _, cp := range br.Caps {
 			b, _ := hex.DecodeString(cp.Hex)
 			ctx.Count("race.replies", 1)
-			if len(cp.Peer) > 0 && cp.Peer[0] == '[' {
+			if len(cp.Peer) > 0 && cp.Peer[0] == '[' { // DHCPv6 (also link-local peers "[fe80::1]:546")
 				// DHCPv6
 				_, inner, err := pkt.Unwrap6(b)
 				if err != nil {
@@ -216,6 +228,14 @@ func (raceEngine) Run(ctx *fw.Ctx, cs any) {
 					continue
 				}
 				answered[key{true, m.Xid}]++
+				if rq.pinned {
+					ctx.Count("race.pinned_replies", 1)
+					if !cp.HasCM || cp.IfIndex != rq.rxIf {
+						for _, pr := range []string{"C16", "C12"} {
+							ctx.Viol(pr, "reply-pinned-to-other-datagrams-interface", "%s: DHCPv6 request %#x from a link-local address arrived on ifindex %d; its reply is pinned to ifindex %d (control message present=%v)", desc, m.Xid, rq.rxIf, cp.IfIndex, cp.HasCM)
+						}
+					}
+				}
 				cid, n := m.Get(pkt.OptClientID6)
 				if n != 1 || !bytes.Equal(cid[0], pkt.DUIDLL(rq.mac)) {
 					ctx.Viol("C16", "reply-echoes-other-datagram", "%s: reply %#x carries client identifier %x, its request was sent by %x (fields of another datagram: a receive buffer was recycled under a reader)", desc, m.Xid, cid, pkt.DUIDLL(rq.mac))
@@ -278,6 +298,14 @@ func (raceEngine) Run(ctx *fw.Ctx, cs any) {
 				continue
 			}
 			answered[key{false, m.Xid}]++
+			if rq.pinned {
+				ctx.Count("race.pinned_replies", 1)
+				if !cp.HasCM || cp.IfIndex != rq.rxIf {
+					for _, pr := range []string{"C16", "C15"} {
+						ctx.Viol(pr, "reply-pinned-to-other-datagrams-interface", "%s: broadcast-flag request %#x arrived on ifindex %d; its broadcast reply is pinned to ifindex %d (control message present=%v)", desc, m.Xid, rq.rxIf, cp.IfIndex, cp.HasCM)
+					}
+				}
+			}
 			cid, _ := m.Get(61)
 			if !bytes.Equal(m.Chaddr[:6], rq.mac) || !bytes.Equal(cid, append([]byte{1}, rq.mac...)) {
 				ctx.Viol("C16", "reply-echoes-other-datagram", "%s: reply %#x carries chaddr %x / client-id %x, its request was sent by %x (fields of another datagram: a receive buffer was recycled under a reader)", desc, m.Xid, m.Chaddr[:6], cid, rq.mac)
